@@ -251,6 +251,16 @@ def bounded_passthrough(reg, tier, seed):
                 variants.append(("as-a-peer-encodes-it", bytes([plain[0] | 0x80]) + plain[1:6] + _ref_zero_code(plain[6:pe]) + plain[pe:]))
             except Exception:  # noqa
                 pass
+        # a datagram that ends before its trailing Variable block (the sender left it out altogether, rather than sending a zero count)
+        try:
+            from hippolyzer.lib.base.message.msgtypes import MsgBlockType as _BT
+            if t.blocks and t.blocks[-1].block_type == _BT.MBT_VARIABLE and len(t.blocks) > 1 and t.blocks[-1].name in m.blocks:
+                import copy as _cp
+                m_short = _cp.deepcopy(m)
+                del m_short.blocks[t.blocks[-1].name]
+                variants.append(("trailing-block-absent", ser.serialize(m_short)))
+        except Exception:  # noqa
+            pass
         if base[0] & 0x80:
             exp = bytes(UDPMessageDeserializer.zero_code_expand(base[6:body_end]))
             variants.append(("non-canonical-zerocode", base[:6] + _noncanonical_zerocode(exp, rng) + base[body_end:]))
@@ -292,7 +302,7 @@ def bounded_passthrough(reg, tier, seed):
                 except Exception as e:  # noqa
                     fail(f"{vname}/{order}: re-encoding raised {type(e).__name__}: {e}", inp)
                     continue
-                lossless_variant = vname in ("as-encoded", "non-canonical-zerocode", "as-a-peer-encodes-it")
+                lossless_variant = vname in ("as-encoded", "non-canonical-zerocode", "as-a-peer-encodes-it", "truncated-body", "trailing-block-absent")
                 if order in ("never", "header", "failing_blocks"):
                     if out != data:
                         fail(f"{vname}/{order}: body never (successfully) parsed but re-encoding is not byte-identical", inp)
